@@ -87,4 +87,13 @@ VARIANTS = [
     V("N-chain-order", D, "        matched + unmatched_predictions + unmatched_annotations\n", "        unmatched_annotations + matched + unmatched_predictions\n", None),
     V("N-truthiness-filter", D, "        if prediction.sound_event.geometry is not None\n    ]\n    annotated", "        if prediction.sound_event.geometry\n    ]\n    annotated", None),
     V("N-rename-locals", D, "predicted", "with_geometry_p", None, occurrence=-1),
+    # mutation audit (DESIGN 8.17)
+    V("geometry-less-unmatched-affinity-1", D, "        (index, None, 0.0)\n", "        (index, None, 1.0)\n", "R08.4"),
+    V("mean-empty-guard-crossed", D, "    if not valid_scores:\n        return 0.0", "    if valid_scores:\n        return 0.0", "R08.6"),
+    V("mean-nan-guard-crossed", D, "    if np.isnan(score):\n        return 0.0", "    if not np.isnan(score):\n        return 0.0", "R08.6"),
+    V("matcher-index-translation-crossed", D, "            predicted[source] if source is not None else None,", "            predicted[source] if source is None else None,", "R08.3"),
+    V("entry-args-crossed", D, "    ) = _evaluate_clips(clip_predictions, clip_annotations, encoder)", "    ) = _evaluate_clips(clip_annotations, clip_predictions, encoder)", "R08.1"),
+    V("classification-score-branches-crossed", "src/soundevent/evaluation/metrics.py", "    if y_true is None:\n        return max(0.0, 1 - y_score.sum())\n\n    return y_score[y_true]\n\n\ndef true_class", "    if y_true is not None:\n        return max(0.0, 1 - y_score.sum())\n\n    return y_score[y_true]\n\n\ndef true_class", "R08.5"),
+    V("validator-source-test-crossed(C04)", "src/soundevent/data/clip_evaluations.py", "if match.source is not None", "if match.source is None", "C04/R04.2"),
+    V("N-mean-single-exit", D, "    if not valid_scores:\n        return 0.0\n\n    score = float(np.mean(valid_scores))\n    if np.isnan(score):\n        return 0.0\n\n    return score", "    if len(valid_scores) == 0:\n        return 0.0\n    return float(np.mean(valid_scores))", None),
 ]
